@@ -168,29 +168,43 @@ theorem addIt_next {α : Type} (toAurel : String → String) (var : List String)
 
 /-! ### all iterations -/
 
+theorem insertNat_ne_nil (x : Nat) (l : List Nat) : insertNat x l ≠ [] := by
+  cases l with
+  | nil => simp [insertNat]
+  | cons y ys => simp only [insertNat]; split <;> simp
+
+theorem sortedSet_ne_nil (its : List Nat) (h : its ≠ []) : sortedSet its ≠ [] := by
+  cases its with
+  | nil => exact absurd rfl h
+  | cons a as =>
+    unfold sortedSet
+    rw [List.eraseDups_cons]
+    simp only [sortNat]
+    exact insertNat_ne_nil _ _
+
 theorem readCheckpointsCore_good {α : Type} (toAurel : String → String) (files : List (CFile α)) (var : List String)
     (hn : var.Nodup) (hvar : var ≠ []) (hinj : ∀ a ∈ var, ∀ b ∈ var, toAurel a = toAurel b → a = b)
-    (ht : ∀ v ∈ var, toAurel v ≠ "t") (its : List Nat) (rl : Nat) (cmax : CMax)
-    (hc : findCmax files (sortedSet its) = some cmax) (A : Nat → String → Arr3 α) (tm : Nat → Nat)
-    (hgood : ∀ iit ∈ sortedSet its, GoodIt cmax files iit rl var (A iit) (tm iit)) :
+    (ht : ∀ v ∈ var, toAurel v ≠ "t") (its : List Nat) (hits : its ≠ []) (rl : Nat)
+    (A : Nat → String → Arr3 α) (tm : Nat → Nat)
+    (hgood : ∀ iit ∈ sortedSet its, GoodItAuto files iit rl var (A iit) (tm iit)) :
     readCheckpointsCore toAurel files var its rl
       = some ⟨sortedSet its, ("t", (sortedSet its).map fun i => Cell.t (tm i))
           :: var.map fun v => (toAurel v, (sortedSet its).map fun i => Cell.arr (fixij (A i v)))⟩ := by
   unfold readCheckpointsCore
-  simp only [hc]
-  generalize sortedSet its = s at hc hgood
+  have hs := sortedSet_ne_nil its hits
+  generalize sortedSet its = s at hs hgood
   cases s with
-  | nil => simp [findCmax] at hc
+  | nil => exact absurd rfl hs
   | cons i0 rest =>
-    have hstep : ∀ iit ∈ i0 :: rest, readIt cmax files iit rl var
+    have hstep : ∀ iit ∈ i0 :: rest, readItAuto files iit rl var
         = some (some (tm iit, var.map fun v => fixij (A iit v))) :=
-      fun iit hi => readIt_good cmax files iit rl var hn hvar (A iit) (tm iit) (hgood iit hi)
+      fun iit hi => readItAuto_good files iit rl var hn hvar (A iit) (tm iit) (hgood iit hi)
     simp only [List.foldlM_cons, itStep, hstep i0 (List.mem_cons_self ..), Option.bind_eq_bind, Option.bind_some]
     rw [addIt_first toAurel var hn hinj ht]
     -- the remaining iterations append
-    have : ∀ (r : List Nat) (p : List Nat), (∀ iit ∈ r, readIt cmax files iit rl var
+    have : ∀ (r : List Nat) (p : List Nat), (∀ iit ∈ r, readItAuto files iit rl var
           = some (some (tm iit, var.map fun v => fixij (A iit v)))) →
-        r.foldlM (itStep toAurel cmax files rl var)
+        r.foldlM (itStep toAurel files rl var)
           (("t", p.map fun i => Cell.t (tm i)) :: var.map fun v => (toAurel v, p.map fun i => Cell.arr (fixij (A i v))))
         = some (("t", (p ++ r).map fun i => Cell.t (tm i))
             :: var.map fun v => (toAurel v, (p ++ r).map fun i => Cell.arr (fixij (A i v)))) := by
@@ -235,12 +249,18 @@ theorem goodIt_congr {α : Type} {cmax : CMax} {files : List (CFile α)} {iit rl
   exact ⟨sel, nz, ny, nx, D, base, gx, gy, gz, hF, fun f hf => goodFile_congr hv (hgood f hf),
     hgx, hgy, hgz, hz, hy, hx, hD, fun v h => hphys v (hv v h)⟩
 
-/-- **any request list, duplicates included** -/
+theorem goodItAuto_congr {α : Type} {files : List (CFile α)} {iit rl : Nat} {var var' : List String}
+    {A : String → Arr3 α} {tm : Nat} (hv : ∀ v, v ∈ var' → v ∈ var) (h : GoodItAuto files iit rl var A tm) :
+    GoodItAuto files iit rl var' A tm := by
+  obtain ⟨cmax, hl, hg⟩ := h
+  exact ⟨cmax, hl, goodIt_congr hv hg⟩
+
+/-- **any request list, duplicates included; any layout per iteration** -/
 theorem readCheckpoints_good {α : Type} (toAurel : String → String) (files : List (CFile α)) (var : List String)
     (hvar : var ≠ []) (hinj : ∀ a ∈ var, ∀ b ∈ var, toAurel a = toAurel b → a = b)
-    (ht : ∀ v ∈ var, toAurel v ≠ "t") (its : List Nat) (rl : Nat) (cmax : CMax)
-    (hc : findCmax files (sortedSet its) = some cmax) (A : Nat → String → Arr3 α) (tm : Nat → Nat)
-    (hgood : ∀ iit ∈ sortedSet its, GoodIt cmax files iit rl var (A iit) (tm iit)) :
+    (ht : ∀ v ∈ var, toAurel v ≠ "t") (its : List Nat) (hits : its ≠ []) (rl : Nat)
+    (A : Nat → String → Arr3 α) (tm : Nat → Nat)
+    (hgood : ∀ iit ∈ sortedSet its, GoodItAuto files iit rl var (A iit) (tm iit)) :
     readCheckpoints toAurel files var its rl
       = some ⟨sortedSet its, ("t", (sortedSet its).map fun i => Cell.t (tm i))
           :: var.eraseDups.map fun v => (toAurel v, (sortedSet its).map fun i => Cell.arr (fixij (A i v)))⟩ := by
@@ -253,7 +273,7 @@ theorem readCheckpoints_good {α : Type} (toAurel : String → String) (files : 
     rw [e] at this; cases this
   · exact fun a ha b hb => hinj a (hm a ha) b (hm b hb)
   · exact fun v hv => ht v (hm v hv)
-  · exact hc
-  · exact fun iit hi => goodIt_congr hm (hgood iit hi)
+  · exact hits
+  · exact fun iit hi => goodItAuto_congr hm (hgood iit hi)
 
 end AurelVerif.CheckpointLemmas
